@@ -45,7 +45,11 @@ class fixed_scalar_array(base_array):
 
     def __setitem__(self, idx, value):
         if isinstance(idx, slice):
-            self.__setslice__(idx.start, idx.stop, value)
+            if idx.step not in (None, 1):
+                # extended slice: element count cannot change (list raises ValueError otherwise)
+                self._values[idx] = [self._TYPE._check(elem) for elem in value]
+            else:
+                self.__setslice__(idx.start, idx.stop, value)
         else:
             value = self._TYPE._check(value)
             self._values[idx] = value
@@ -97,7 +101,11 @@ class bound_scalar_array(base_array):
 
     def __setitem__(self, idx, value):
         if isinstance(idx, slice):
-            self.__setslice__(idx.start, idx.stop, value)
+            if idx.step not in (None, 1):
+                # extended slice: element count cannot change (list raises ValueError otherwise)
+                self._values[idx] = [self._TYPE._check(elem) for elem in value]
+            else:
+                self.__setslice__(idx.start, idx.stop, value)
         else:
             value = self._TYPE._check(value)
             self._values[idx] = value
